@@ -2,3 +2,4 @@
 // that harness modules outside `component` (coding.rs) can build small components.
 pub(crate) use super::datatype::verif::residual_from_raw;
 pub(crate) use super::datatype::verif::set_sum_quotients;
+pub(crate) use super::datatype::verif::set_block_and_warmup;
